@@ -182,11 +182,11 @@ inductive Want
   deriving DecidableEq, Repr
 
 /-- the value the callee is entitled to for an integer parameter of type `dt` fed from a register of type `st` holding `v`:
-    sign-extended when both are signed and the parameter is wider, zero-extended when it is wider otherwise -/
+    sign-extended when both are signed integers and the parameter is wider, zero-extended when it is wider otherwise -/
 def widen (dt st : Nat) (v : BitVec 64) : BitVec 64 :=
   let sb := tySize st
   let low : BitVec 64 := if sb = 1 then zext8 v else if sb = 2 then zext16 v else if sb = 4 then zext32 v else v
-  if tySize dt > sb && dt % 2 = 0 && st % 2 = 0 then
+  if tySize dt > sb && isInt dt && isInt st && dt % 2 = 0 && st % 2 = 0 then
     (if sb = 1 then sext8 v else if sb = 2 then sext16 v else if sb = 4 then sext32 v else v)
   else low
 
@@ -198,7 +198,17 @@ def valueOk (m : M) (fdArgStack css : Nat) (arg : FuncValue) (w : Want) : Bool :
   match w with
   | .none => true
   | .int v =>
-    if arg.isIndirect then false
+    if arg.isIndirect then
+      -- the caller passed the pointer itself in a GP register: the location holds that register-size value
+      let nb := if m.is64 then 8 else 4
+      if arg.isReg then
+        (match readGp m arg.regId (if m.is64 then 6 else 5) with
+         | some r => r == lowBytes nb v
+         | none => false)
+      else
+        (match loadNum m arg.stackOffset nb with
+         | some (r, b) => b ≥ 8 * nb && lowBytes nb r == lowBytes nb v
+         | none => false)
     else if arg.isReg then
       (match readGp m arg.regId (if n ≤ 1 then 2 else if n = 2 then 4 else if n ≤ 4 then 5 else 6) with
        | some r => r == lowBytes n v
